@@ -73,8 +73,14 @@ CASE_CPU_SECONDS_QUICK = 120.0
 KINDS = ('in', 'inb', 'inmap', 'inbmap', 'inmix', 'inbmix', 'insortx',
          'inbvars', 'ingd', 'ingdx', 'inbgd', 'inempty', 'inbempty', 'if2', 'with', 'withonly', 'let', 'if', 'try', 'tryh',
          'tryf', 'fin', 'raise', 'sub', 'subtuple', 'subclient', 'tree', 'treex', 'treedm', 'treedp',
-         'treeed')
-LEAF_ONLY = ('withonly', 'tree', 'treex', 'treedm', 'treedp', 'treeed')     # no nested blocks inside
+         'treeed', 'e-tryh', 'e-tryh0', 'e-try', 'e-tryelse', 'e-tryf',
+         'e-fin', 'e-in', 'e-inb', 'e-inmap', 'e-inelse', 'e-with', 'e-let',
+         'e-if', 'e-ifelse', 'e-raise', 'e-sub')
+LEAF_ONLY = ('withonly', 'tree', 'treex', 'treedm', 'treedp', 'treeed',
+             'e-tryh', 'e-tryh0', 'e-try', 'e-tryelse', 'e-tryf', 'e-fin',
+             'e-in', 'e-inb', 'e-inmap', 'e-inelse', 'e-with', 'e-let',
+             'e-if', 'e-ifelse', 'e-raise',
+             'e-sub')     # no nested blocks inside
 SYNTAXES = ('dtml', 'ssi', 'epfs')
 
 
@@ -284,6 +290,60 @@ class Builder:
             n = ['tree', N('root'), [T('r'), self.probe('row%d' % k)],
                  [['expand', 'ed%d' % k], ['header', 'hd%d' % k],
                   ['leaves', 'nold%d' % k], ['footer', 'noft%d' % k]]]
+        elif kind.startswith('e-'):
+            # blocks with a completely *empty* section (no text, no tag):
+            # nothing to render there, but what was pushed for it -- or was
+            # not yet pushed -- must balance all the same
+            kk = kind[2:]
+            ns['boom%d' % k] = ['raiser', 'boom%d' % k, 'HC', 'x']
+            ns['seq%d' % k] = ['probe', 'seq%d' % k, [
+                'seq', 'list', [['obj', {'e': ['lit', 1]}],
+                                ['obj', {'e': ['lit', 2]}]]]]
+            ns['mseq%d' % k] = ['probe', 'mseq%d' % k, [
+                'seq', 'tuple', [['map', {'e': ['lit', 1]}], ['map', {}]]]]
+            ns['none%d' % k] = ['probe', 'none%d' % k, ['seq', 'list', []]]
+            ns['obj%d' % k] = ['probe', 'obj%d' % k,
+                               ['obj', {'w': ['lit', 1]}]]
+            ns['c%d' % k] = ['probe', 'c%d' % k, ['lit', 1]]
+            ns['z%d' % k] = ['probe', 'z%d' % k, ['lit', 0]]
+            boom = [T('t'), ['var', N('boom%d' % k), []]]
+            if kk == 'tryh':
+                n = ['try', boom, [[['HA'], []]], None]
+            elif kk == 'tryh0':
+                n = ['try', boom, [[[], []]], None]
+            elif kk == 'try':
+                n = ['try', [], [[['HA'], [self.probe('h%d' % k)]]],
+                     [self.probe('e%d' % k)]]
+            elif kk == 'tryelse':
+                n = ['try', [self.probe('t%d' % k)],
+                     [[['HA'], [self.probe('h%d' % k)]]], []]
+            elif kk == 'tryf':
+                n = ['tryf', [], [self.probe('f%d' % k)]]
+            elif kk == 'fin':
+                n = ['tryf', [self.probe('t%d' % k)], []]
+            elif kk == 'in':
+                n = ['in', N('seq%d' % k), [], None, []]
+            elif kk == 'inb':
+                n = ['in', N('seq%d' % k), [], None,
+                     [['size', '1'], ['orphan', '0']]]
+            elif kk == 'inmap':
+                n = ['in', N('mseq%d' % k), [], None, [['mapping', None]]]
+            elif kk == 'inelse':
+                n = ['in', N('none%d' % k), [self.probe('b%d' % k)], [], []]
+            elif kk == 'with':
+                n = ['with', N('obj%d' % k), [], []]
+            elif kk == 'let':
+                n = ['let', [['a%d' % k, N('c%d' % k)]], []]
+            elif kk == 'if':
+                n = ['if', [[N('c%d' % k), []]], [self.probe('el%d' % k)]]
+            elif kk == 'ifelse':
+                n = ['if', [[N('z%d' % k), [self.probe('th%d' % k)]]], []]
+            elif kk == 'raise':
+                n = ['try', [['raise', E('HXc'), []]],
+                     [[['HX'], [self.probe('r%d' % k)]]], None]
+            else:
+                ns['sub%d' % k] = ['tmpl', [], {'sd%d' % k: ['lit', 1]}]
+                n = ['var', N('sub%d' % k), []]
         elif kind == 'tree':
             n = ['tree', N('root'), [T('r'), self.probe('row%d' % k)], []]
         elif kind == 'treex':
